@@ -852,6 +852,30 @@ def replay(ctx, rp):
         got = impl_lr(r["tool"], text)
         print("_list_routes(%s) on %r -> %s" % (r["tool"], text[:200], got[:200]))
         return got.startswith("CRASH")
+    if "index" in r and r.get("text_hex"):
+        text = bytes.fromhex(r["text_hex"])
+        got = impl_lr(r["tool"], text)
+        items = got[3:].split(",") if got.startswith("OK ") and len(got) > 3 else []
+        k = r["index"]
+        have = [list((lambda a, b: (a, int(b)))(*items[k].rsplit("/", 1)))] if k < len(items) else []
+        print("_list_routes(%s) entry %d -> %r, canonical network %r" % (r["tool"], k, have, r.get("want")))
+        return got.startswith("CRASH") or have != [list(x) for x in r.get("want", [])]
+    if r.get("kind") == "delivery" and "want" in r and r.get("text_hex"):
+        text = bytes.fromhex(r["text_hex"])
+        st, payload, wire = impl_server(r.get("tool", "ip"), text)
+        if st != "OK":
+            print("server.main ->", st, payload)
+            return True
+        if "auto_nets" in r:
+            got, ordered = impl_client(r["auto_nets"], r["v4"], r["v6"], wire)
+            print("client outcome %s (want %s)" % (got[:200], r["want"][:200]))
+            return got[:300] != r["want"] or not ordered
+        print("payload %r (want %r)" % (payload[:200], r["want"]))
+        return payload[:200].decode("latin-1") != r["want"]
+    if "mask" in r:
+        got = str(load()["server"]._maskbits((r["mask"], 32)))
+        print("_maskbits((%d, 32)) -> %s (want %s)" % (r["mask"], got, r.get("want")))
+        return got != str(r.get("want"))
     if r.get("kind") == "delivery":
         if r.get("text_hex"):
             text = bytes.fromhex(r["text_hex"])
